@@ -31,6 +31,7 @@ def check(chk):
     positional_relabel(chk)
     _multiindex(chk)
     _renamer(chk)
+    _renamer_by_role(chk)
     # the feature coordinates of list elements are kept under "0", "1", ...: splitting walks them in list order
     from .common import index_key_order
     index_key_order(chk, "MIRROR.state.concat.index_keys", ("coords_in",))
@@ -581,6 +582,46 @@ def _multiindex(chk):
             r = call_kwargs(cs[0]).get("reference") or (cs[0].args[1] if len(cs[0].args) > 1 else None)
         chk.check(const_str(r) == ref, "MIRROR.state.multiindex.uses", m, cs[0] if cs else m.node, construct=f"{mname} restores from reference {ref!r}",
                   why=f"{mname} restores MultiIndexes from {const_str(r)!r}: labels of the fitted data and of transformed data get mixed up")
+
+
+def _renamer_by_role(chk, rule="MIRROR.state.renamer.by_role"):
+    """The items of a list are renamed one by one to internal dimension names, then the (sorted) union of their internal
+    SAMPLE names is stacked and the items are concatenated by position.  The internal name of a sample dimension must
+    therefore be the same for every item, whatever position the dimension has in that item's layout: the numbering
+    starts from the sample dimensions given by the user, not from ``X.dims``."""
+    pm = chk.pm
+    rn = pm.cls("xeofs.preprocessing.dimension_renamer.DimensionRenamer")
+    fit = rn.methods.get("fit")
+    chk.require(fit is not None, "DimensionRenamer.fit vanished")
+    ff = FuncFacts.of(fit)
+    found = False
+    for st in ff.statements():
+        tgt = st.targets[0] if isinstance(st, ast.Assign) and len(st.targets) == 1 else None
+        if tgt is None or not is_self_attr(tgt, "dim_mapping"):
+            continue
+        v = inline_locals(ff, st.value)
+        enum = [c for c in ast.walk(v) if isinstance(c, ast.Call) and isinstance(c.func, ast.Name) and c.func.id == "enumerate" and c.args]
+        if not enum:
+            continue
+        found = True
+        it = enum[0].args[0]
+        ps = ff.paths(it, spine_only=False)
+        # the enumeration must start with the sample dimensions handed to fit: a concatenation whose LEFT-most part comes from that parameter
+        lead = it
+        while isinstance(lead, ast.Name):
+            defs = ff.rd.reaching(lead.id, ff.node_of(st))
+            if len(defs) == 1 and defs[0].kind == "assign" and not defs[0].index:
+                lead = defs[0].value
+            else:
+                break
+        while isinstance(lead, ast.BinOp) and isinstance(lead.op, ast.Add):
+            lead = lead.left
+        lead_from_samples = any(p.atom.kind == "param" and p.atom.name == "sample_dims" for p in ff.paths(lead, spine_only=False))
+        chk.check(lead_from_samples, rule, fit, st, construct="internal dimension names are numbered from the sample dimensions given to fit",
+                  why=f"DimensionRenamer.fit numbers the dimensions in the order `{norm(it)[:60]}`: the internal name of a sample dimension depends on its position in the layout of "
+                      "the data, so two items of a list that hold the sample dimensions at different positions are stacked differently and concatenated row against wrong row "
+                      "(or the union of their sample names is taken for several sample dimensions and fit raises)")
+    chk.require(found, "DimensionRenamer.fit: dim_mapping is no longer built from an enumeration (anchor vanished)")
 
 
 def _renamer(chk):
